@@ -62,11 +62,27 @@ pub fn with_hash_seed<T: Send + 'static>(
     hash_seed: u64,
     f: impl FnOnce() -> T + Send + 'static,
 ) -> Result<T, String> {
+    with_thread_env(hash_seed, false, f)
+}
+
+/// As `with_hash_seed`; with `lifo_heap` the thread's small Rust allocations come from the
+/// simulated heap (seam S3b: exact-size LIFO address reuse).
+pub fn with_thread_env<T: Send + 'static>(
+    hash_seed: u64,
+    lifo_heap: bool,
+    f: impl FnOnce() -> T + Send + 'static,
+) -> Result<T, String> {
+    if lifo_heap {
+        crate::heap::init();
+    }
     let h = std::thread::Builder::new()
         .stack_size(64 << 20)
         .spawn(move || {
             set_thread_hash_seed(hash_seed);
-            f()
+            crate::heap::set_thread_active(lifo_heap);
+            let r = f();
+            crate::heap::set_thread_active(false);
+            r
         })
         .expect("spawn run thread");
     match h.join() {
